@@ -99,7 +99,12 @@ func originMatches(p *Prog, o Origin, spec string, depth int) bool {
 		}
 		return idx == -2 || idx == o.Index
 	case strings.HasPrefix(spec, "field:"):
-		return o.Kind == OrgField && o.Field != nil && p.FieldName(o.Field) == spec[len("field:"):]
+		want := spec[len("field:"):]
+		if strings.HasSuffix(want, ".*") {
+			// any field of the struct: the field is chosen by its owner, not by its name
+			return o.Kind == OrgField && o.Field != nil && strings.HasPrefix(p.FieldName(o.Field), strings.TrimSuffix(want, "*"))
+		}
+		return o.Kind == OrgField && o.Field != nil && p.FieldName(o.Field) == want
 	case strings.HasPrefix(spec, "param:"):
 		return o.Kind == OrgParam && o.Val.Name() == spec[len("param:"):]
 	case strings.HasPrefix(spec, "freevar:"):
